@@ -80,9 +80,9 @@ def rwLoop : Nat → Nat → List Nat → Option (List Nat)
       | none => none
       | some (cp, rest) => (rwLoop f 34 rest).map fun o => 34 :: (cp ++ 34 :: o)
     else if c == 47 then
-      match r with
-      | [] => none                                   -- `b[1]` out of range
-      | d :: _ =>
+      match r.head? with
+      | none => none                                 -- `b[1]` out of range
+      | some d =>
         if d == 42 then
           match dropComment (c :: r) with
           | none => none
